@@ -249,6 +249,46 @@ func randOpts(rng *rand.Rand, maxSize int) *genOpts {
 
 // ---------- case generators ----------
 
+// genFinalBlockHistoryCase: context takeover, every message compressed, the first (or second) ends with a final deflate block,
+// the sender keeps its window across it, and the messages share content, so that later ones refer back to bytes the endpoint
+// received together with the end of the earlier deflate stream.
+func genFinalBlockHistoryCase(rng *rand.Rand, k int) *ReadCase {
+	o := &genOpts{Client: k%2 == 0, Flate: true, Takeover: true, MaxMsgs: 1, MaxSize: 100, ForceCompressed: true}
+	gs := &genStream{}
+	defl := newRawDeflater(true, []int{1, 6, 9}[k%3])
+	defl.keepWindow = true
+	base := genPayload(rand.New(rand.NewSource(int64(k)*7+3)), 300+40*(k%5))
+	for i := range base { // not a constant run: back-references must carry information
+		base[i] = "abcdefghijklmnopqrstuvwxyz0123456789 "[(int(base[i])+i*7)%37]
+	}
+	for m := 0; m < 3; m++ {
+		plain := append([]byte(fmt.Sprintf("message %d of case %d: ", m, k)), base...)
+		wire := defl.message(plain, m == (k/2)%2)
+		gs.Msgs = append(gs.Msgs, genMsgInfo{Typ: 1, Plain: plain, Compressed: true})
+		masked, key := o.key(rng)
+		frs := []int{len(wire)}
+		if k%3 == 1 && len(wire) > 4 {
+			frs = []int{len(wire) / 2, len(wire) - len(wire)/2}
+		}
+		pos := 0
+		for i, n := range frs {
+			op := 0
+			if i == 0 {
+				op = 1
+			}
+			gs.Frames = append(gs.Frames, annFrame{F: RawFrame{Fin: i == len(frs)-1, Rsv1: i == 0, Op: op, Masked: masked, Key: key, Payload: wire[pos : pos+n]}, Msg: m, Last: i == len(frs)-1})
+			pos += n
+		}
+	}
+	c := baseCase(rng, o, "valid")
+	c.Bufs = [][]int{{4096}, {64}, {7}, {32768}}[k%4]
+	b, _ := gs.encode()
+	c.Stream = hex.EncodeToString(b)
+	c.Exp = gs.expectPrefix(len(gs.Frames), "end of stream at a frame boundary")
+	c.Desc = "valid"
+	return c
+}
+
 // genValidCase: a valid stream, then the transport ends at a frame boundary.
 func genValidCase(rng *rand.Rand, maxSize int) *ReadCase {
 	o := randOpts(rng, maxSize)
